@@ -314,7 +314,7 @@ func recvField(v ssa.Value, recv ssa.Value) (string, bool) {
 	if st == nil {
 		return "", false
 	}
-	return st.Field(fa.Field).Name(), true
+	return fname(st.Field(fa.Field)), true
 }
 
 func c06Direction(r *Run, typ, wantCtor, otherCtor, payloadField string) {
@@ -401,7 +401,7 @@ func c06RegistryAccessors(r *Run) {
 		allInstrs(mf, func(in ssa.Instruction) {
 			if fa, ok := in.(*ssa.FieldAddr); ok {
 				if st := derefStruct(fa.X.Type()); st != nil {
-					reads += st.Field(fa.Field).Name() + " "
+					reads += fname(st.Field(fa.Field)) + " "
 				}
 			}
 		})
@@ -459,7 +459,7 @@ func c06Fallbacks(r *Run, reg *Registry) {
 				return
 			}
 			base, fld, isF := fieldAddrOf(st.Addr)
-			if !isF || fld.Name() != "opType" || typeName(base.Type()) != "UnknownPayload" {
+			if !isF || fname(fld) != "opType" || typeName(base.Type()) != "UnknownPayload" {
 				return
 			}
 			if st.Val != ssa.Value(fn.Params[0]) {
@@ -615,7 +615,7 @@ func c06Fallbacks(r *Run, reg *Registry) {
 				if id.pkg == modPath+"/ttlv" && id.recv == "Decoder" && (id.name == "Any" || id.name == "TagAny") {
 					arg := stripConv(c2.Call.Args[len(c2.Call.Args)-1])
 					if fa, ok := arg.(*ssa.FieldAddr); ok {
-						if st := derefStruct(fa.X.Type()); st != nil && st.Field(fa.Field).Name() == "Object" {
+						if st := derefStruct(fa.X.Type()); st != nil && fname(st.Field(fa.Field)) == "Object" {
 							found++
 							if okBlock.Dominates(c2.Block()) {
 								guarded++
@@ -630,7 +630,7 @@ func c06Fallbacks(r *Run, reg *Registry) {
 			if u, ok := arg.(*ssa.UnOp); ok && u.Op == token.MUL {
 				if fa, ok := u.X.(*ssa.FieldAddr); ok {
 					if st := derefStruct(fa.X.Type()); st != nil {
-						disc = "field " + st.Field(fa.Field).Name()
+						disc = "field " + fname(st.Field(fa.Field))
 					}
 				}
 			}
@@ -669,7 +669,7 @@ func c06OpTypeWriters(r *Run) {
 				return
 			}
 			writes := false
-			if _, fld, ok := fieldAddrOf(st.Addr); ok && fld.Name() == "opType" && typeName(st.Addr.(*ssa.FieldAddr).X.Type()) == "UnknownPayload" {
+			if _, fld, ok := fieldAddrOf(st.Addr); ok && fname(fld) == "opType" && typeName(st.Addr.(*ssa.FieldAddr).X.Type()) == "UnknownPayload" {
 				writes = true
 			}
 			if pt, ok := st.Addr.Type().Underlying().(*types.Pointer); ok && typeName(pt.Elem()) == "UnknownPayload" && typePkgPath(pt.Elem()) == modPath {
@@ -720,7 +720,7 @@ func attrDecoderSetsValue(r *Run, rule string) {
 		var stores []*ssa.Store
 		allInstrs(f, func(in ssa.Instruction) {
 			if st, ok := in.(*ssa.Store); ok {
-				if _, fld, ok := fieldAddrOf(st.Addr); ok && fld.Name() == "AttributeValue" && typeName(st.Addr.(*ssa.FieldAddr).X.Type()) == "Attribute" {
+				if _, fld, ok := fieldAddrOf(st.Addr); ok && fname(fld) == "AttributeValue" && typeName(st.Addr.(*ssa.FieldAddr).X.Type()) == "Attribute" {
 					stores = append(stores, st)
 				}
 			}
